@@ -28,7 +28,7 @@ let show_amt (a : amount) =
    amount follows are what the model of the line reader (Model/PostLine.v) finds in that text *)
 let rec post_of cp = function
   | L [A "post"; _; A _; amt; cost; lot; A line] ->
-    let ((k, name), rest) = split_post_line (str_of_hex line) in
+    let (_state, ((k, name), rest)) = read_post_line (str_of_hex line) in
     let kind = (match k with KReal -> "R" | KVirtual -> "V" | KBalVirtual -> "B" | KDeferred -> "R") in
     let acct = A (hex_of_str name) in
     if has_amount_text rest then post_of cp (L [A "post"; acct; A kind; amt; cost; lot])
